@@ -3,3 +3,4 @@ cd /verif
 tools/seed_wave.sh /tmp/mut "" > /tmp/w/all_w1.log 2>&1
 tools/seed_wave.sh /tmp/mut2 w3 > /tmp/w/all_w3.log 2>&1
 tools/seed_wave.sh /tmp/mut3 w4 > /tmp/w/all_w4.log 2>&1
+tools/seed_wave.sh /tmp/mut4 w5 > /tmp/w/all_w5.log 2>&1
